@@ -764,6 +764,192 @@ example :
     (Handle.run (hdrOf toy .server) h₀ acts₂).2.tx.log = [0, 1, 7] ∧
     (Handle.run (hdrOf toy .server) h₀ acts₃).2.tx.log = [0, 1, 7] := by decide +kernel
 
+/-! ### two exchanges on one connection, everything interleaved -/
+
+def decAwaited : ∀ (s : Stream) (calls : List (SOp × List Nat)), Decidable (Awaited s calls)
+  | _, [] => isTrue trivial
+  | s, c :: r =>
+    have := decAwaited (callS s c) r
+    inferInstanceAs (Decidable (_ ∧ _))
+instance (s : Stream) (calls : List (SOp × List Nat)) : Decidable (Awaited s calls) := decAwaited s calls
+
+/-- the step of the connection machine that a step of stream `sid`'s program is -/
+def stepOf (sid : Nat) : SOp → Step
+  | .headers fs => .sendHeaders sid fs
+  | .data b => .sendData sid b
+  | .finish gN => .finish sid gN
+  | .poll k => .poll sid k
+
+/-- `w` in pieces of `k` bytes -/
+def cut (k : Nat) : Nat → List Nat → List (List Nat)
+  | 0, _ => []
+  | _, [] => []
+  | fuel+1, w => w.take (max k 1) :: cut k fuel (w.drop (max k 1))
+
+/-- two lists taken in turn -/
+def zip2 {α : Type} : List α → List α → List α
+  | [], b => b
+  | a, [] => a
+  | x :: a, y :: b => x :: y :: zip2 a b
+
+/-- a task that is polled after every delivery on its stream: the call it polls is the one the
+    documented pattern is at (`H3.Iso.APhase`), given what it has been answered so far -/
+def sched (cfg : Iso.Cfg) (fuel : Nat) : Iso.APhase → Option Nat → Iso.Req → List Iso.Peer → List Iso.StreamEv
+  | _, _, _, [] => []
+  | .head, cell, r, p :: ps =>
+    .peer p :: .call .head ::
+      sched cfg fuel (Iso.APhase.after .head (Iso.Req.step cfg cell (r.deliver p) (.call .head)).2.2)
+        (Iso.Req.step cfg cell (r.deliver p) (.call .head)).2.1
+        (Iso.Req.step cfg cell (r.deliver p) (.call .head)).1 ps
+  | .body, cell, r, p :: ps =>
+    .peer p :: .call (.body fuel) ::
+      sched cfg fuel (Iso.APhase.after .body (Iso.Req.step cfg cell (r.deliver p) (.call (.body fuel))).2.2)
+        (Iso.Req.step cfg cell (r.deliver p) (.call (.body fuel))).2.1
+        (Iso.Req.step cfg cell (r.deliver p) (.call (.body fuel))).1 ps
+  | .done, cell, r, p :: ps => .peer p :: sched cfg fuel .done cell (r.deliver p) ps
+
+/-- a second request: `POST`-less, one body byte, no trailers -/
+def m₆ : Message :=
+  { head := .request GET ⟨some sHttps, some aCom, some slash⟩ none
+    headers := [([121], [50])], pieces := [[7]], trailers := none }
+def h₆ : Header :=
+  { pseudo := Pseudo.request GET ⟨some sHttps, some aCom, some slash⟩ none, fields := [([121], [[50]])] }
+
+/-- stream 0: `m₁`, the handle owes the grease frame (draw 5), HEADERS trickles out byte by byte with
+    `Pending`s in between, the transport cuts the stream into 5-byte chunks; stream 4: `m₆`, written
+    at once, cut into 3-byte chunks -/
+def x₀ : Exchange :=
+  { sid := 0, m := m₁, h := h₁, g := true, gN := 5
+    scripts := [[1, 0, 1, 0, 0, 2, 3, 100], [5, 5], [0, 2], [1, 1, 1, 1], [3, 3, 3], [2, 0, 100]]
+    cs := cut 5 100 (streamBytes m₁ (some 5)) }
+def x₄ : Exchange :=
+  { sid := 4, m := m₆, h := h₆, g := false, gN := 0, scripts := [[100, 100], [100, 100], []]
+    cs := cut 3 100 (streamBytes m₆ none) }
+
+def st₀ : State :=
+  { server := false, cfg := { grease := true, mfs := 0, wt := false, ec := false, dg := false, wts := 0 }
+    streams := [(0, freshStream true), (4, freshStream false)]
+    built := true, connGrease := false, greaseStreamFlag := false }
+
+def cfg₀ : Iso.Cfg := isoCfg toy .server 1000
+
+/-- the sender's steps: the two programs taken in turn, a GOAWAY in between -/
+def steps₀ : List Step :=
+  zip2 ((opsOf x₀.calls).map (stepOf 0)) (.goaway 0 :: (opsOf x₄.calls).map (stepOf 4))
+
+/-- the receiver's history: each stream's task polled after each of its deliveries; the two streams
+    taken in turn; driver polls at both ends -/
+def hist₀ : List Iso.HEv :=
+  .drive :: zip2 ((sched cfg₀ 100 .head none {} (x₀.cs.map Iso.Peer.chunk ++ [.fin])).map (.on 0))
+    ((sched cfg₀ 100 .head none {} (x₄.cs.map Iso.Peer.chunk ++ [.fin])).map (.on 4)) ++ [.drive]
+
+/-- both ends in one sequence, taken in turn: chunks are delivered while the sender is still writing
+    other parts of the message -/
+def evs₀ : List GEv := zip2 (steps₀.map .snd) (hist₀.map .rcv)
+
+theorem wf₆ : WellFormed m₆ h₆ where
+  header := by decide +kernel
+  regular := by decide +kernel
+  trailersRegular := by intro t ht; cases ht
+  holdable := by decide +kernel
+  trailersHoldable := by intro t ht; cases ht
+  encodable := by decide +kernel
+  trailersEncodable := by intro t ht; cases ht
+  pieces := by
+    intro p hp
+    simp only [m₆, List.mem_cons, List.mem_nil_iff, or_false] at hp
+    subst hp
+    exact ⟨by decide, by intro b hb; revert b; decide⟩
+  blockLen := by decide +kernel
+  trailerLen := by intro t ht; cases ht
+
+theorem ok₀ : x₀.Ok toy .server 1000 100 st₀ (sndOf evs₀) (rcvOf evs₀) where
+  wf := wf₁
+  fits := ⟨by decide +kernel, by intro t ht; cases ht; decide +kernel⟩
+  values := values₁
+  draw := by decide
+  sid := by decide
+  fresh := by decide +kernel
+  awaited := by decide +kernel
+  mine := by decide +kernel
+  chunks := by decide +kernel
+  carried := by
+    intro s hs
+    have h0 : getStream (SendSide.run st₀ (sndOf evs₀)).streams x₀.sid =
+        some (runS (freshStream true) ((sndOf evs₀).filterMap (proj 0))) :=
+      getStream_run _ st₀ 0 _ (by decide) (by decide +kernel)
+    rw [h0] at hs
+    cases hs
+    decide +kernel
+  delivered := by decide +kernel
+  follows := by decide +kernel
+  last := by decide +kernel
+  bound := by decide +kernel
+
+theorem ok₄ : x₄.Ok toy .server 1000 100 st₀ (sndOf evs₀) (rcvOf evs₀) where
+  wf := wf₆
+  fits := ⟨by decide +kernel, by intro t ht; cases ht⟩
+  values := HeadValues.request m₆ GET ⟨some sHttps, some aCom, some slash⟩ none rfl (by decide)
+    (by intro s h; cases h; exact ⟨sHttps, by decide⟩) (by intro a h; cases h; exact ⟨aCom, by decide⟩)
+    (by intro x h; cases h; exact ⟨slash, by decide⟩) (by intro x h; cases h) (by intro h; cases h) (by decide)
+  draw := by decide
+  sid := by decide
+  fresh := by decide +kernel
+  awaited := by decide +kernel
+  mine := by decide +kernel
+  chunks := by decide +kernel
+  carried := by
+    intro s hs
+    have h0 : getStream (SendSide.run st₀ (sndOf evs₀)).streams x₄.sid =
+        some (runS (freshStream false) ((sndOf evs₀).filterMap (proj 4))) :=
+      getStream_run _ st₀ 4 _ (by decide) (by decide +kernel)
+    rw [h0] at hs
+    cases hs
+    decide +kernel
+  delivered := by decide +kernel
+  follows := by decide +kernel
+  last := by decide +kernel
+  bound := by decide +kernel
+
+/-- the theorem applied to the two exchanges: the digest of stream 0 is `want₁`, stream 4 is handed
+    its own message; the cell is empty, nothing was closed -/
+example :
+    deliveredOf toy .server 1000 (Iso.digest (Iso.obsOf 0 (grun cfg₀ st₀ {} evs₀).2.2))
+      (((grun cfg₀ st₀ {} evs₀).2.1.get 0).rx.env) = want₁ ∧
+    (deliveredOf toy .server 1000 (Iso.digest (Iso.obsOf 4 (grun cfg₀ st₀ {} evs₀).2.2))
+      (((grun cfg₀ st₀ {} evs₀).2.1.get 4).rx.env)).body = [7] ∧
+    (grun cfg₀ st₀ {} evs₀).2.1.cell = none ∧ (grun cfg₀ st₀ {} evs₀).2.1.closed = [] := by
+  have h := C01_end_to_end_interleaved toy toy_laws toy_rt .server 1000 100 [x₀, x₄] st₀ evs₀
+    (by
+      intro x hx
+      simp only [List.mem_cons, List.mem_nil_iff, or_false] at hx
+      rcases hx with rfl | rfl
+      · exact ok₀
+      · exact ok₄)
+    (by
+      have hs : ∀ j ∈ Iso.sidsOf (rcvOf evs₀), j = 0 ∨ j = 4 := by decide +kernel
+      intro j hj
+      rcases hs j hj with rfl | rfl
+      · exact Or.inl ⟨x₀, by simp, rfl⟩
+      · exact Or.inl ⟨x₄, by simp, rfl⟩)
+  refine ⟨(h.1 x₀ (by simp)).2.1.trans (by decide +kernel), ?_, h.2.1, h.2.2⟩
+  have h4 : deliveredOf toy .server 1000 (Iso.digest (Iso.obsOf 4 (grun cfg₀ st₀ {} evs₀).2.2))
+      (((grun cfg₀ st₀ {} evs₀).2.1.get 4).rx.env) = _ := (h.1 x₄ (by simp)).2.1
+  rw [h4]
+  decide +kernel
+
+/-- the history is not a sequential one: the head call of stream 0 answers `Pending` four times
+    before it answers (the HEADERS frame arrives in five chunks), the body task is polled seven times -/
+def isPendingAns : Iso.Obs → Bool
+  | .ans (.res .pending) => true
+  | _ => false
+def isBodyPoll : Iso.Obs → Bool
+  | .body _ _ => true
+  | _ => false
+example : ((Iso.obsOf 0 (grun cfg₀ st₀ {} evs₀).2.2).filter isPendingAns).length = 4 ∧
+    ((Iso.obsOf 0 (grun cfg₀ st₀ {} evs₀).2.2).filter isBodyPoll).length = 7 ∧ evs₀.length = 78 := by
+  decide +kernel
+
 end examples
 
 end H3.Props.C01
